@@ -221,7 +221,8 @@ def handleObj (kind steps : String) (impl : String) : Verdict := Id.run do
 def handleLife (kind spelling sibs steps : String) (impl : String) : Verdict := Id.run do
   let specs := items steps ";"
   let nsib := (items sibs ",").eraseDups.length +
-    (if spelling = "dotdot" && !(items sibs ",").contains "5" then 1 else 0)
+    (if spelling = "dotdot" && !(items sibs ",").contains "5" then 1 else 0) +
+    (if spelling = "symchain" then 1 else 0)
   let outs := (items impl "/").map (·.splitOn ",")
   if outs.length != specs.length then return ⟨"UNPARSABLE", false, "life:unparsable"⟩
   let mut fs : FS := fun _ => none
